@@ -18,6 +18,9 @@ What is generated (every random choice from `rng`):
   with m = 2^BITS - c give the rare second-level carry of `almost_montgomery_mul` (ts == 1 and row carry == 2^64-1, n >= 2) and the
   meta-carry of montgomery_reduction; `rare_carry_hits` counts (with a Python port of the CIOS loop) how many generated boxed
   multiplications hit it; it is reported in the evidence (extra_check) and must be > 0.
+* halving (`half_hist`): stored forms 1, 3, m-2, m-1, (m+-1)/2, R mod m, random odd, by Half and HalfAssign chained, followed by h + h, at
+  m = 2^BITS-1 (the only modulus where m + 1 wraps), 2^(BITS-1)+1, 2^BITS-c, 3 and a general modulus; Neg of an exact zero (Zero, a - a)
+  on every representation (corpus and random histories).
 * `monty.params.*`: every constructor (new, new_vartime, trait, impl_modulus!, from_const_params, boxed new / new_vartime / trait /
   from_const_params) field by field (one, r2, r3, mod_neg_inv, mod_leading_zeros incl. the clamp at 63 for moduli with >= 64
   leading zeros).
@@ -211,6 +214,21 @@ def rare_carry_hist(rng, m, n, length):
         if code in (7, 8, 5, 3): ids.append(r)
     return h
 
+def half_hist(rng, m, n):
+    """halving of stored forms chosen directly: odd / even representatives next to every boundary of div_by_2
+    (a + m overflows 2^BITS or not, a = 1, m - 2, m - 1, (m +- 1) / 2), by Half and HalfAssign, chained (the carry re-inserted as
+    the top bit is observable only for m >= 2^(BITS-1); m = 2^BITS - 1 is the only modulus where m + 1 wraps)"""
+    h = Hist(m, n); R = 1 << (64 * n)
+    forms = [1, 3, m - 2, m - 1, (m - 1) // 2, (m + 1) // 2, R % m, (R - m) % m | 1, value(rng, n) % m | 1]
+    rng.shuffle(forms)
+    for M in forms[:5]:
+        a = h.new(stored(M % m, m, n), rng.randrange(8))
+        b = h.op(9, a, 0, rng.randrange(64))
+        h.op(15, b, 0, rng.randrange(64)); h.op(15, a, 0, rng.randrange(64))
+        h.op(3, b, b, rng.randrange(64))                              # h + h must give the operand back
+    h.op(2, v=rng.randrange(64)); h.op(9, h.nvals - 1, 0, rng.randrange(64)); h.op(15, h.nvals - 1, 0, rng.randrange(64))
+    return h
+
 # reference evaluation of an op list (stored forms), used for the rare-carry statistics only
 def eval_forms(h):
     m, n = h.m, h.n; R = 1 << (64 * n); Ri = pow(R, -1, m) if m > 1 else 0
@@ -316,6 +334,11 @@ def gen(tier, rng):
             m = R - rng.choice([1, 1, 3, 5, 189, (1 << 32) + 1, MAXW, MAXW - 2])
             if m <= 0 or m % 2 == 0: m = R - 1
             hist_cases(rare_carry_hist(rng, m, n, 6 if big else 10), rng, kinds, add, dbg=True)
+        # structured: halving at m = 2^BITS - 1 (m + 1 wraps), 2^(BITS-1) + 1, 2^BITS - c, 3 and a general modulus
+        hm = [R - 1, R // 2 + 1, R - rng.choice([3, 5, 189]), 3, modulus(rng, n)]
+        for m in (hm if not big else [R - 1, rng.choice(hm[1:])]):
+            for t in range(scale if not big else 1):
+                hist_cases(half_hist(rng, m, n), rng, kinds, add, dbg=True)
         params_cases(rng, n, (4 if not big else 1) * scale, add, boxed_only=not fixed)
         if fixed:
             reduction_cases(rng, n, (30 if not big else 6) * scale, add)
@@ -350,6 +373,15 @@ def corpus():
     cs.append(Case('monty.history.dyn', h.args(0), mop='monty.history', dbg=True))
     h = Hist(9, 2); a = h.new(3); b = h.new(6); h.op(7, a, b)
     cs.append(Case('monty.history.dyn', h.args(1), mop='monty.history', dbg=True))
+    # halving of odd representatives at m = 2^BITS - 1 (1/2 = 2^(BITS-1)); -0 on the boxed form
+    for n in (1, 4):
+        m = (1 << (64 * n)) - 1
+        h = Hist(m, n); h.op(2); h.op(9, 0); a = h.new(3); h.op(9, a); h.op(15, a); b = h.new(m - 2); h.op(15, b)
+        cs.append(Case('monty.history.dyn', h.args(0), mop='monty.history', dbg=True))
+        cs.append(Case('monty.boxed_history.boxed', h.args(0), mop='monty.boxed_history', dbg=True))
+    h = Hist(15, 2); h.op(1); h.op(5, 0); a = h.new(7); h.op(4, a, a); h.op(5, 3); h.op(9, 4); h.op(6, 4)
+    cs.append(Case('monty.boxed_history.boxed', h.args(0), mop='monty.boxed_history', dbg=True))
+    cs.append(Case('monty.history.dyn', h.args(0), mop='monty.history', dbg=True))
     return cs
 
 def extra_check(ctx):
